@@ -270,6 +270,12 @@ def build_case(case):
     from basyx.aas import model
     live = build(case["live"], case.get("hist", False))
     new = build(case["new"])
+    # where the "freshly loaded copy" comes from: built in this process, or handed over by value (another process, a cache)
+    if case.get("via") == "pickle":
+        import pickle
+        new = pickle.loads(pickle.dumps(new))
+    elif case.get("via") == "deepcopy":
+        new = copy.deepcopy(new)
     holder = None
     h = case.get("holder")
     if h == "Submodel":
@@ -423,7 +429,8 @@ def gen_case(rng: random.Random) -> Dict[str, Any]:
             if not in_list and rootc not in ("Submodel", "AssetAdministrationShell") and rng.random() < 0.15:
                 new["id"] = rng.choice(["root2", "sibling"]) if holder else "root2"
                 tags.append("root-renamed")
-        case = {"live": live, "new": new, "us": rng.random() < 0.4, "holder": holder, "tags": tags, "hist": rng.random() < 0.35}
+        case = {"live": live, "new": new, "us": rng.random() < 0.4, "holder": holder, "tags": tags, "hist": rng.random() < 0.35,
+                "via": rng.choice(["build", "build", "build", "pickle", "pickle", "deepcopy"])}
         try:
             build_case(case)
         except Exception:
@@ -852,7 +859,8 @@ def check_case(case, probes=True) -> List[C.Failing]:
     except Exception:
         return []
     out: List[C.Failing] = []
-    small = {"live": case["live"], "new": case["new"], "us": case["us"], "holder": case.get("holder"), "tags": case.get("tags", [])}
+    small = {"live": case["live"], "new": case["new"], "us": case["us"], "holder": case.get("holder"), "tags": case.get("tags", []),
+             "hist": case.get("hist", False), "via": case.get("via", "build")}
 
     def fail(sig, what, obs=None, req=None):
         out.append(C.Failing(sig, what, small, obs, req))
